@@ -48,7 +48,7 @@ CHECKS: dict[str, tuple[str, str, str]] = {
         'history in default mode equals "consecutive distinct visited sites" for every minimal residence (default_eq_spec, '
         'jumpsOfHistory_default through the C03 table theorem); for ARBITRARY event lists (inner-site mode included) a larger '
         'minimal residence yields a sub-multiset of jumps (minres_monotone). The loop body is REGENERATED from jumps.py on every run (GGen/JumpStep, statement by statement) and proved to '
-        'refine the hand-written machine (C04Gen.jumpStep_refines, runGen_refines), so the theorems are about what the code says now. Tie: exhaustive histories x residences, exact incl. order.',
+        'refine the hand-written machine (C04Gen.jumpStep_refines, runGen_refines), so the theorems are about what the code says now (the translator also reads read-only local names and and/or conditions). Tie: exhaustive histories x residences, exact incl. order.',
         'second clause proved as strict_subset_default (GProofs/C04Strict.lean): for inner histories with inner_t in {-1, site_t} every reported '
         'jump is a default jump (origin, destination, start time) and matches the recorded states; trusted: pandas groupby/iterrows order',
         '4/C04',
@@ -57,7 +57,8 @@ CHECKS: dict[str, tuple[str, str, str]] = {
         'Theorems (GProofs/C05.lean): with indices inside [0,n) the fancy-index assignment of unique-pair counts gives entry (i,j) = '
         '#rows (i,j) (matrixAsIs_get), n x n shape, sum = #rows, empty diagonal when origin != destination, '
         'sum_ij w_ij M_ij = sum over rows of w (jump diffusivity), per-site counts + no-site count = frames x atoms; D5 fold/overwrite '
-        'witnesses. Tie: real Transitions/Jumps objects on pool lattices, matrices exact, diffusivity vs exact certified minimum-image sum (1e-9).',
+        'witnesses; C05Occ: atom_locations / occupancy_by_site_type per label add up to the site occupancies, fractions at the site types + at no site = 1. '
+        'Tie: real Transitions/Jumps objects on pool lattices, matrices exact, diffusivity vs exact certified minimum-image sum (1e-9), both per-label dictionaries vs GModel.OccLabels.',
         'known finding D5 (Transitions.matrix folds "no site" into the last site; upstream test pins the folded values) reported as '
         'KNOWN-FINDING, classified by agreement with the as-is model; rates/graph/counter checked as aggregations on the implementation; '
         'trusted: np.unique(axis=0) order, last-write-wins fancy assignment, pymatgen get_all_distances (cross-checked in C12)',
@@ -68,7 +69,8 @@ CHECKS: dict[str, tuple[str, str, str]] = {
         'conditions (scan_iff), the predicate is symmetric, no pair twice or in both orders, sorting only permutes rows, '
         'solo + collective = total, the second guard is dead under the stop-time order; break_counterexample documents D9. '
         'Tie: random jump tables incl. long overlapping transits on triclinic cells, exact incl. order; distances from the certified minimum image. '
-        'The guard chain of the pair loop is REGENERATED from collective.py on every run (GGen/PairGuard) and proved to be what the model executes (C12Gen.inner_cons_gen, no guard may break).',
+        'The guard chain of the pair loop is REGENERATED from collective.py on every run (GGen/PairGuard) and proved to be what the model executes (C12Gen.inner_cons_gen, no guard may break). '
+        'C12Exit: an early exit bounded by the longest transit (stop_j - stop_i > window + L, rows ordered by stop time) changes nothing (innerExit_eq_inner); with >= a pair is lost.',
         'defect D9 (early break) repaired by fix commit a711a25; float comparison dist < max_dist kept 1e-6 away from every site distance; '
         'trusted: stable two-key pandas sort, pymatgen minimum-image distances (cross-checked per case)',
         '4/C12',
@@ -110,8 +112,8 @@ CHECKS.update({
         'Theorems (GProofs/C08.lean): np.digitize against the linspace edges = floor(x*n) on [0,1) (digitize_eq_floor), the index lies in the '
         'grid, the voxel counts sum to the number of samples for every sample list and grid (counts_sum) and entry (i,j,k) is the number of '
         'samples with that floor index (counts_get), n = floor(L/res) gives res <= L/n < 2 res, voxel -> centre -> voxel is the identity for '
-        'every grid size (roundtrip). Tie: counts exact vs model and vs exact floor on dyadic and non-dyadic coordinate grids, pool lattices x 6 resolutions; '
-        'float round trip for every voxel of every grid size up to 2000 (quick) / 20000 (thorough).',
+        'every grid size (roundtrip); the volume of a sample list that continues another is the voxel-wise sum (counts_append_get), sample order is irrelevant (counts_perm_get). Tie: counts exact vs model and vs exact floor on dyadic and non-dyadic coordinate grids, pool lattices x 6 resolutions; '
+        'volume(first part) + volume(second part) of one trajectory object = volume of the whole; float round trip for every voxel of every grid size up to 2000 (quick) / 20000 (thorough).',
         'IEEE: a coordinate within 2^-50 of a non-representable boundary k/n is only checked for conservation; cases with L/res within 1e-9 of an integer are skipped; '
         'the float round trip is enumerated for every index up to the bound AND proved for any rounding operator with relative error <= u (C08Fl.roundtrip_fl: every index below 2^50 for binary64)',
         '4/C08',
@@ -203,9 +205,13 @@ CHECKS.update({
         'parse(args) and leaves a complete cache (load_correct, load_then_hit); for EVERY history of loads, truncations at any byte, deletions and prefix-undecodable garbage every load '
         'returns parse(args) provided the parser result is determined by the file name (load_correct_any_faults_partial); counterexamples show the need of Keyed (D11) and of the '
         'garbage-prefix condition; generated obligations: per loader every parameter the parser reads reaches the default cache name (regenerated from trajectory.py each run). '
-        'Tie: real from_lammps / from_vasprun / stubbed from_gromacs on generated files, truncation at byte k, garbage, fault cycles vs the model, argument matrix.',
+        'Names (GProofs/C16Names.lean): Path.with_suffix keeps all but the LAST component of the file name (with_suffix_forgets_last; asWas_collision = defect D17), the name determines '
+        'hash and template, so a hash over (file, options) that is injective on the keys in use gives distinct names (distinct_of_hashed); regenerated per loader: what is hashed, what is in the '
+        'template, which file carries it (GGen/CacheNames), obligations carriers_hashed and *_used_hashed. '
+        'Tie: real from_lammps / from_vasprun / stubbed from_gromacs on generated files, truncation at byte k, garbage, fault cycles vs the model, argument matrix; sibling source files in one '
+        'directory (names differing in a middle part / only in the last suffix), their cache files named as the model names them.',
         'the unrestricted statement load_correct_any_faults is FALSE for garbage whose proper prefix decodes (counterexample theorem); pickle prefix-freeness / round trip are hypotheses, '
-        'checked on the real files at every tested prefix; torn writes other than prefixes, fsync order and concurrent loaders are not modelled; from_gromacs runs against a stub of MDAnalysis.Universe; D11 repaired by a fix commit',
+        'checked on the real files at every tested prefix; torn writes other than prefixes, fsync order and concurrent loaders are not modelled; from_gromacs runs against a stub of MDAnalysis.Universe; D11 and D17 repaired by fix commits',
         '4/C16',
     ),
     'C13': (
